@@ -97,7 +97,13 @@ pub enum Op {
     Truncate { n: Size },
     Flush,
     /// mode: 0 map_mut, 1 map_copy, 2 map, 3 map_copy_read_only; cap: 0 same, 1 larger, 2 absent
-    Reopen { mode: u8, cap: u8 },
+    Reopen {
+        mode: u8,
+        cap: u8,
+        /// also pass with_create(true) to a writable reopen of the existing file
+        #[serde(default)]
+        create: bool,
+    },
 }
 
 /// Per-property generator profile.
@@ -355,8 +361,8 @@ pub fn op_strategy(p: &Profile) -> BoxedStrategy<Op> {
     add(p.w_flush, Just(Op::Flush).boxed());
     add(
         p.w_reopen,
-        (weighted(p.reopen_modes), 0u8..3)
-            .prop_map(|(mode, cap)| Op::Reopen { mode, cap })
+        (weighted(p.reopen_modes), 0u8..3, any::<bool>())
+            .prop_map(|(mode, cap, create)| Op::Reopen { mode, cap, create })
             .boxed(),
     );
     Union::new_weighted(v).boxed()
